@@ -250,6 +250,9 @@ func (s *c05State) step(in ssa.Instruction) {
 				return
 			}
 		}
+		if c05PureCall(u, 0) {
+			return // computes a value, writes nothing: what is known about memory stays known
+		}
 		s.havoc()
 	case *ssa.RunDefers:
 		s.epoch++
@@ -430,7 +433,52 @@ func c05EqEdges(fn *ssa.Function, isA, isB func(v ssa.Value) bool) (eq, ne []Edg
 		case *ssa.Call:
 			if CalleeName(c) == "errors.Is" && len(c.Call.Args) == 2 && isA(c.Call.Args[0]) && isB(c.Call.Args[1]) {
 				eq, ne = append(eq, t), append(ne, f)
+				continue
 			}
+			// a boolean helper that merely wraps the comparison: func isEOF(err error) bool { return err == io.EOF }
+			if x, y, neg, ok := c05BoolHelperCmp(c); ok && ((isA(x) && isB(y)) || (isA(y) && isB(x))) {
+				if neg {
+					eq, ne = append(eq, f), append(ne, t)
+				} else {
+					eq, ne = append(eq, t), append(ne, f)
+				}
+			}
+		}
+	}
+	return
+}
+
+// c05BoolHelperCmp: call is to an in-module helper whose body is a single
+// `return a == b` / `a != b` / `errors.Is(a, b)`; x and y are the compared
+// values with the helper's parameters replaced by the call's arguments.
+func c05BoolHelperCmp(call *ssa.Call) (x, y ssa.Value, negated, ok bool) {
+	h := StaticCallee(call)
+	if h == nil || !inModule(h) || len(h.Blocks) != 1 || h.Signature.Results().Len() != 1 {
+		return
+	}
+	rets := Returns(h)
+	if len(rets) != 1 {
+		return
+	}
+	subst := func(v ssa.Value) ssa.Value {
+		if p, isP := strip(v).(*ssa.Parameter); isP {
+			for i, q := range h.Params {
+				if q == p && i < len(call.Call.Args) {
+					return call.Call.Args[i]
+				}
+			}
+		}
+		return v
+	}
+	switch r := rets[0].Results[0].(type) {
+	case *ssa.BinOp:
+		if r.Op != token.EQL && r.Op != token.NEQ {
+			return
+		}
+		return subst(r.X), subst(r.Y), r.Op == token.NEQ, true
+	case *ssa.Call:
+		if CalleeName(r) == "errors.Is" && len(r.Call.Args) == 2 {
+			return subst(r.Call.Args[0]), subst(r.Call.Args[1]), false, true
 		}
 	}
 	return
@@ -1233,4 +1281,40 @@ func c05CopyCallsE(e *c05Env) []c05Copy {
 		}
 	}
 	return out
+}
+
+var c05PureStd = map[string]bool{"errors.Is": true, "os.IsNotExist": true, "os.IsExist": true, "strings.HasPrefix": true, "strings.HasSuffix": true, "strings.Contains": true}
+
+// c05PureCall: the call only computes a value: a known side-effect free
+// library function, or an in-module function whose body contains no store,
+// map update, send, go/defer and only pure calls.
+func c05PureCall(call ssa.CallInstruction, depth int) bool {
+	if call.Common().IsInvoke() {
+		return false
+	}
+	if c05PureStd[CalleeName(call)] {
+		return true
+	}
+	h := StaticCallee(call)
+	if h == nil || !inModule(h) || len(h.Blocks) == 0 || depth > 2 {
+		return false
+	}
+	pure := true
+	AllInstrs(h, func(in ssa.Instruction) {
+		switch x := in.(type) {
+		case *ssa.Store, *ssa.MapUpdate, *ssa.Send, *ssa.Go, *ssa.Defer, *ssa.RunDefers, *ssa.Panic, *ssa.Select:
+			pure = false
+		case *ssa.Call:
+			if b, ok := x.Call.Value.(*ssa.Builtin); ok {
+				switch b.Name() {
+				case "len", "cap", "min", "max":
+					return
+				}
+			}
+			if !c05PureCall(x, depth+1) {
+				pure = false
+			}
+		}
+	})
+	return pure
 }
